@@ -290,7 +290,7 @@ func main() {
 			"filter worlds: in a compact world of 20 sites the other sites' features are, for a site's queries, features outside every covering (some of them tagged #t=a, all tagged #e=y); compact builds cost ~0.1 s of buffer clearing each, hence the grouping",
 			"Typed.Matches only tests the type and Intersection / Union.Matches combine operand Matches, so the reference for the wrapped forms is the harness's own set algebra over the spatial query's Matches, not the wrapper's Matches",
 		},
-		QuickDeadline: 200e9, ThoroughDeadline: 1500e9, CaseTimeout: 300e9,
+		QuickDeadline: 400e9, ThoroughDeadline: 3600e9, CaseTimeout: 600e9,
 		Build: func(tier string) (kit.Space, string) {
 			as := anchors(tier)
 			kinds := worldKinds
@@ -319,8 +319,12 @@ func main() {
 				}
 			}
 			np := len(fwPatterns(tier))
-			bound := fmt.Sprintf("(A) filter worlds at anchor %s: every sequence of 1..%d slots over the first %d of {M-,Ma,R-,Ra,Fa} (M = true match of every query at the hot spot, R = inside the level-16 covering cell of every query but 30-80 m outside every exact shape, F = 1 km away; a = tagged #t=a; slots have consecutive IDs of one type) = %d sequences x slot type {point,path,area} x {no sentinels, one sentinel match of every geometry type + relation + collection in a later namespace}; each as a one-site world of kinds %v, and in compact worlds of %d sites (consecutive sequences, sites 40 cells apart) = %d worlds; per site %d spatial queries (cap 20 m, level-20 cell, point, polyline, multipolygon of 1 and of 2 polygons, intersects-feature point/path/area sentinel; the last three only with sentinels) x %d forms (quick: bare, Typed x {point,path,area,relation,collection}, Intersection with #t=a and with #e=y (all features) in both operand orders, Union with #t=a in both orders, Typed[slot type] over those six, Intersection of Typed[slot type] with #t=a in both orders, Intersection in both orders with a second cap holding R slots 0..2; thorough: also Union with #e=y, nesting with all three geometry types, Union of Typed with #t=a, Union with the second cap). (B) %d anchor cells (level 16; thorough also levels 8, 12, 20, 24) x %d world kinds %v x ~%d queries per scene; ~%d features per scene; cap radii %v m; cell levels 0,1,5,16,30 (+2,10,15,17,24 thorough); every exact query also as Typed x {point,path,area,relation} and as Intersection with the tag query #menu=path in both operand orders",
-				as[0].name, fwMaxLen(tier), fwAlphabetSize(tier), np, fwTinyKinds, fwGroup, nfw, nq, len(fwWrappers(tier, fPoint)),
+			seqs := "every sequence of 1..4 slots over {M-,Ma,R-,Ra}"
+			if tier == "thorough" {
+				seqs = "every sequence of 1..4 slots over {M-,Ma,R-,Ra,Fa} and of 5 slots over {M-,Ma,R-,Ra}"
+			}
+			bound := fmt.Sprintf("(A) filter worlds at anchor %s: %s (M = true match of every query at the hot spot, R = inside the level-16 covering cell of every query but 30-80 m outside every exact shape, F = 1 km away; a = tagged #t=a; slots have consecutive IDs of one type) = %d sequences x slot type {point,path,area} x {no sentinels, one sentinel match of every geometry type + relation + collection in a later namespace}; each as a one-site world of kinds %v, and in compact worlds of %d sites (consecutive sequences, sites 40 cells apart) = %d worlds; per site %d spatial queries (cap 20 m, level-20 cell, point, polyline, multipolygon of 1 and of 2 polygons, intersects-feature point/path/area sentinel; the last three only with sentinels) x %d forms without / %d with sentinels (quick: bare, Typed x {point,path,area,relation,collection}, Intersection with #t=a and with #e=y (all features) in both operand orders, Union with #t=a in both orders, Typed[slot type] over those six, Intersection of Typed[slot type] with #t=a in both orders, Intersection in both orders with a second cap holding R slots 0..2; thorough: also Union with #e=y, Union of Typed with #t=a, Union with the second cap, and with sentinels the nesting for all three geometry types). (B) %d anchor cells (level 16; thorough also levels 8, 12, 20, 24) x %d world kinds %v x ~%d queries per scene; ~%d features per scene; cap radii %v m; cell levels 0,1,5,16,30 (+2,10,15,17,24 thorough); every exact query also as Typed x {point,path,area,relation} and as Intersection with the tag query #menu=path in both operand orders",
+				as[0].name, seqs, np, fwTinyKinds, fwGroup, nfw, nq, len(fwWrappers(tier, fPoint, false)), len(fwWrappers(tier, fPoint, true)),
 				len(as), len(kinds), kinds, len(qs[0]), nf/len(as), capRadiiM)
 			return kit.FuncSpace{N: nfw + int64(len(cases)), F: func(i int64) kit.Result {
 				if i < nfw {
